@@ -151,6 +151,7 @@ GEN_FILES = {
     "testgen": ["TestGenFacts.lean"],
     "ffi": ["Ffi.lean"],
     "translator": ["OpTables.lean", "PanicSites.lean", "MapRange.lean"],
+    "printer": ["PrinterFacts.lean"],
 }
 ALL_GENS = []  # filled by ensure_built callers; empty list = all generators
 
